@@ -128,8 +128,17 @@ func (s *c11pSess) runDirect(st *c11pStats) {
 			}
 			msgs = append(msgs, m)
 		}
-		for _, k := range s.order("deal", p.id, len(msgs), false) {
+		var groups []string
+		for _, m := range msgs {
+			groups = append(groups, s.groupOf(m.from))
+		}
+		for _, k := range s.order("deal", p.id, len(msgs), false, groups) {
 			list = append(list, c11pCloneDeal(cfg.Suite.(c11pSuite), msgs[k].b))
+		}
+		if s.scn.dv > 0 && coin.IntN(4) == 0 {
+			// a nil entry in the list handed to the API must simply be skipped
+			at := coin.IntN(len(list) + 1)
+			list = append(list[:at:at], append([]*dkgp.DealBundle{nil}, list[at:]...)...)
 		}
 		var rb *dkgp.ResponseBundle
 		var err error
@@ -173,8 +182,16 @@ func (s *c11pSess) runDirect(st *c11pStats) {
 			msgs = append(msgs, m)
 		}
 		var list []*dkgp.ResponseBundle
-		for _, k := range s.order("resp", p.id, len(msgs), true) {
+		var groups []string
+		for _, m := range msgs {
+			groups = append(groups, s.groupOf(m.from))
+		}
+		for _, k := range s.order("resp", p.id, len(msgs), true, groups) {
 			list = append(list, c11pCloneResp(msgs[k].b))
+		}
+		if s.scn.dv > 0 && coin.IntN(4) == 0 {
+			at := coin.IntN(len(list) + 1)
+			list = append(list[:at:at], append([]*dkgp.ResponseBundle{nil}, list[at:]...)...)
 		}
 		var res *dkgp.Result
 		var jb *dkgp.JustificationBundle
@@ -205,7 +222,7 @@ func (s *c11pSess) runDirect(st *c11pStats) {
 		allResp = append(allResp, m.b)
 	}
 	for _, p := range s.parties {
-		if p.honest || p.oldIdx < 0 {
+		if p.honest {
 			continue
 		}
 		for _, b := range s.byzJustifs(p, c11pComplainersOf(allResp, uint32(p.oldIdx))) {
@@ -229,8 +246,16 @@ func (s *c11pSess) runDirect(st *c11pStats) {
 			msgs = append(msgs, m)
 		}
 		var list []*dkgp.JustificationBundle
-		for _, k := range s.order("just", p.id, len(msgs), false) {
+		var groups []string
+		for _, m := range msgs {
+			groups = append(groups, s.groupOf(m.from))
+		}
+		for _, k := range s.order("just", p.id, len(msgs), false, groups) {
 			list = append(list, c11pCloneJust(cfg.Suite.(c11pSuite), msgs[k].b))
+		}
+		if s.scn.dv > 0 && coin.IntN(4) == 0 {
+			at := coin.IntN(len(list) + 1)
+			list = append(list[:at:at], append([]*dkgp.JustificationBundle{nil}, list[at:]...)...)
 		}
 		var res *dkgp.Result
 		var err error
@@ -283,4 +308,13 @@ func (s *c11pSess) checkHonestResponse(p *c11pParty, rb *dkgp.ResponseBundle) {
 			s.viol("ProcessDeals/success-for-invalid-deal/"+d.fault.kind, "an honest share holder reports success for a deal the harness built to be invalid ("+why+")", map[string]any{"holder": p.id, "dealer": d.id})
 		}
 	}
+}
+
+// groupOf names the sender of a broadcast packet if it is Byzantine (pairs of packets of one
+// Byzantine sender are delivered in opposite orders to different honest recipients, see order).
+func (s *c11pSess) groupOf(from int) string {
+	if from >= 0 && from < len(s.parties) && !s.parties[from].honest {
+		return fmt.Sprint(from)
+	}
+	return ""
 }
